@@ -42,8 +42,8 @@ Ltac tie_side :=
   try assumption; try lra;
   try (intro; match goal with H : _ <> 0 |- False => apply H; lra end).
 
-(** model model-side constants *)
-Ltac tie_consts := unfold two, three, N_A, milli, ofQ' in *.
+(** let-bound locals / inlined helper parameters of the generated code, model-side constants *)
+Ltac tie_consts := cbv zeta; unfold two, three, N_A, milli, ofQ' in *.
 
 (** close [L = R] where both sides are field expressions over atoms *)
 Ltac tie_field := tie_consts; rops; field; tie_side.
